@@ -258,6 +258,8 @@ pub fn generate_c03(g: &mut Gen, thorough: bool) {
         f.push(data);
         g.push(f.join("\t"), &format!("oracle-{class}"), nontrivial);
     }
+    // a pipeline is its steps as they are defined when it is instantiated: macros registered again in between
+    super::c18::redefinition_histories(g);
     // macros taking arguments, the modifiers in every position (in front of the name included: the arguments
     // reach the body wherever the modifiers stand)
     {
